@@ -35,6 +35,8 @@ type fsSnapshot struct {
 	Stored map[string]meta.TaskState
 	StoredReason map[string]string
 	Published map[string]int
+	Subscribed map[string]bool  // source vchannels with a live subscription
+	Created    map[int64]bool   // late collections that exist upstream
 	API       map[string]string // task -> state reported by List
 	Gauge     map[string]string // task -> state gauge that counts it ("" = none, "A+B" = two)
 }
@@ -85,6 +87,13 @@ func (x *fsExec) snapshot() {
 	}
 	for v := range x.logs {
 		s.Published[v] = x.cur.mq.Published(v)
+	}
+	s.Subscribed, s.Created = map[string]bool{}, map[int64]bool{}
+	for _, v := range x.cur.mq.Registered() {
+		s.Subscribed[v] = true
+	}
+	for id, ok := range x.created {
+		s.Created[id] = ok
 	}
 	x.snaps = append(x.snaps, s)
 }
@@ -529,6 +538,15 @@ func (x *fsExec) check() (viol []sched.Violation, summary string, nontrivial boo
 				if c := x.collByName(e.Detail); c != nil {
 					owners[x.taskOfColl(c.ID)] = "start-scan-lookup-fails"
 				}
+			case "conn-fail":
+				// the collection being started on that source channel (the scenarios that use it keep one collection per channel)
+				for _, c := range x.sc.Colls {
+					for _, sh := range c.Shards {
+						if funcutil.ToPhysicalChannel(sh.SrcV) == e.Key {
+							owners[x.taskOfColl(c.ID)] = "connectivity-check-fails"
+						}
+					}
+				}
 			case "pause":
 				manual[e.Key] = true
 			case "resume":
@@ -585,6 +603,34 @@ func (x *fsExec) check() (viol []sched.Violation, summary string, nontrivial boo
 		prevAt = s.At
 		for id, st := range s.States {
 			prev[id] = st
+		}
+	}
+	// C13 on the full stack: a task that is Running at a quiescent point has its replication started - every shard of
+	// every collection it selects (that exists upstream and has not been dropped there) has a live subscription
+	for _, s := range x.snaps {
+		if s.Subscribed == nil {
+			continue
+		}
+		for _, c := range x.sc.Colls {
+			tid := x.taskOfColl(c.ID)
+			if tid == "" || s.States[tid] != meta.TaskStateRunning || s.Stored[tid] != meta.TaskStateRunning || (c.Late && !s.Created[c.ID]) {
+				continue
+			}
+			droppedUp := false
+			for _, sh := range c.Shards {
+				if dp := sh.dropPack(); dp >= 0 && s.Published[sh.SrcV] > dp {
+					droppedUp = true
+				}
+			}
+			if droppedUp {
+				continue
+			}
+			for _, sh := range c.Shards {
+				if !s.Subscribed[sh.SrcV] {
+					add("C13/fullstack/running-without-stream", "at the quiescent point after event %d task %s is Running (memory and store) but shard %s of its collection %s has no subscription at the source (subscribed: %v)", s.At, tid, sh.SrcV, c.Name, s.Subscribed)
+					break
+				}
+			}
 		}
 	}
 	// C11 on the full stack: at every quiescent point the four views of every task's state agree
@@ -1025,6 +1071,13 @@ func fsC06Scenarios(thorough bool) []*fsScenario {
 		sc.Colls[0].Late = true
 		sc.StoreFault = true
 		out = append(out, sc)
+		// the source message queue refuses the connectivity check of a new channel handler at the task's start: the start of
+		// that collection fails after the channel manager has registered it
+		for n := 1; n <= len(l.tasks); n++ {
+			sc = mk(fmt.Sprintf("connectivity-check-fails@%d", n))
+			sc.ConnFailAt = n
+			out = append(out, sc)
+		}
 		// a message for a partition the downstream never gets
 		sc = mk("unknown-partition")
 		sc.Colls[0].UnknownPart = true
@@ -1196,6 +1249,20 @@ func TestVerifC11Fullstack(t *testing.T) {
 	}
 	res.Rule = "the full-stack failure scenarios of C06 (downstream rejects writes once / repeatedly / twice, store rejects a checkpoint, downstream rejects a drop, unknown partition; 1 task, 2 tasks on one target, 2 tasks on two targets; resume at quiescence, final clean restart) and the crash / pause scenarios of C05 under every schedule within the deviation bound; at every quiescent point the state of every task in memory, in the store, through the list API and in the per-state gauges must be the same"
 	fsExplore(t, res, "C11", bound, append(fsC06Scenarios(ev.Thorough()), fsC05Scenarios(ev.Thorough())...), 150*time.Second)
+}
+
+// C13 on the full stack: the failure, crash, pause and late-creation scenarios judged by "a Running task has its
+// replication started" at every quiescent point (task start = create, resume, restart)
+func TestVerifC13Fullstack(t *testing.T) {
+	res := ev.New("C13", "fullstack")
+	defer res.Write()
+	fsKeep = []string{"C13/"}
+	bound := 2
+	if ev.Thorough() {
+		bound = 3
+	}
+	res.Rule = "the full-stack scenarios of C06 (failure classes x task layouts, including a connectivity check that fails at the task's start, resume at quiescence) and of C05 (crash / pause / collections created through the create-collection event while the task runs) under every schedule within the deviation bound; at every quiescent point every task that is Running in memory and in the store has a live source subscription for every shard of every collection it selects (collections not yet created or already dropped upstream excepted)"
+	fsExplore(t, res, "C13", bound, append(fsC06Scenarios(ev.Thorough()), fsC05Scenarios(ev.Thorough())...), 150*time.Second)
 }
 
 func TestVerifC06Failure(t *testing.T) {
